@@ -409,6 +409,41 @@ CHECK_DEADLOCK FALSE
 """
 
 
+def binding_selftest(traces: list[dict], rng: random.Random) -> list[dict]:
+    """Corrupted copies of recorded histories that Trace_Config must reject (the binding is not vacuous):
+      field   : one observed configuration value changed at one event        -> val
+      nohook  : one recorded Enter event removed (as if its hook were missing) -> not_enabled / val
+      capture : the options an inverse reports at application changed          -> captured_at_apply"""
+    import copy
+
+    out = []
+    pool = [t for t in traces if len(t['events']) >= 4]
+    for i, t in enumerate(rng.sample(pool, min(len(pool), 30))):
+        evs = t['events']
+        idx = [j for j, e in enumerate(evs) if any(v['solver'] != -1 for v in e['vals'])]
+        if idx:
+            c = copy.deepcopy(t)
+            j = rng.choice(idx)
+            v = next(v for v in c['events'][j]['vals'] if v['solver'] != -1)
+            v['solver'] = 1 + (v['solver'] % 3) if v['solver'] in (1, 2, 3) else v['solver'] + 1
+            c['id'], c['expect'] = f'selftest-field-{i}', ['val']
+            out.append(c)
+        ent = [j for j, e in enumerate(evs) if e['a'] == 'Enter']
+        if ent:
+            c = copy.deepcopy(t)
+            del c['events'][rng.choice(ent)]
+            c['id'], c['expect'] = f'selftest-nohook-{i}', ['not_enabled', 'val']
+            out.append(c)
+        app = [j for j, e in enumerate(evs) if e['a'] == 'ApplyInv' and e['cap']['solver'] != -1]
+        if app:
+            c = copy.deepcopy(t)
+            e = c['events'][rng.choice(app)]
+            e['cap'] = dict(e['cap'], throw=1 - e['cap']['throw'] if e['cap']['throw'] in (0, 1) else 0)
+            c['id'], c['expect'] = f'selftest-capture-{i}', ['captured_at_apply']
+            out.append(c)
+    return out
+
+
 def validate_traces(traces: list[dict]) -> tuple[list[dict], fx.TlcResult]:
     """Stage 3: batch trace validation by TLC. Returns the verdict records."""
     fx.BUILD.mkdir(exist_ok=True)
@@ -473,7 +508,20 @@ def run(tier: str, seed: int) -> int:
     # ---- stage 2: execution on real threads / contexts
     traces = fx.replay('c19', 'execute', cases, procs=fx.NPROC, chunksize=8)
     # ---- stage 3: TLC validates the recorded histories
-    verdicts, tv = validate_traces(traces)
+    selftests = binding_selftest(traces, random.Random(seed + 5))
+    verdicts, tv = validate_traces(traces + [{k: v for k, v in s.items() if k != 'expect'} for s in selftests])
+    st = {}
+    expect = {s['id']: s['expect'] for s in selftests}
+    for v in [v for v in verdicts if v['id'] in expect]:
+        kind = v['id'].split('-')[1]
+        rec = st.setdefault(kind, {'corrupted': 0, 'rejected': 0})
+        rec['corrupted'] += 1
+        rec['rejected'] += bool({b['clause'] for b in v['bad']} & set(expect[v['id']]))
+    verdicts = [v for v in verdicts if v['id'] not in expect]
+    for kind, rec in st.items():
+        # a trace specification that accepts corrupted recordings decides nothing: machinery failure, not a verdict
+        if rec['rejected'] < (rec['corrupted'] if kind != 'nohook' else (4 * rec['corrupted']) // 5):
+            raise fx.MachineryError(f"binding self-test: only {rec['rejected']} of {rec['corrupted']} corrupted histories ({kind}) rejected")
     by_id = {c['id']: c for c in cases}
     if len(verdicts) != len(traces):
         raise fx.MachineryError(f'{len(traces)} traces but {len(verdicts)} verdicts')
@@ -506,6 +554,7 @@ def run(tier: str, seed: int) -> int:
                          'depth': mc.depth, 'exhaustive_within_bounds': True},
         'trace_validation': {'distinct_states': tv.distinct, 'traces': len(traces),
                              'rejected': len(traces) - accepted},
+        'binding_selftest': st,
         'sources': {'spec_simulation': len(spec_cases), 'random_programs': len(rand_cases), 'deep': len(deep)},
         'samples': [traces[0], traces[len(traces) // 2]],
     }, [
